@@ -90,7 +90,10 @@ def call_sites(I):
         hits = []
         for lp in loops:
             calls = [c for c in ast.walk(lp) if isinstance(c, ast.Call) and ast.unparse(c.func).endswith(".record_interruption")]
-            if len(calls) == 1 and ast.unparse(calls[0].func) == f"{ast.unparse(lp.target)}.record_interruption" and len(lp.body) == 1:
+            # exactly one unconditional call per iteration (other statements in the loop body are allowed)
+            top_level = [st for st in lp.body if isinstance(st, ast.Expr) and isinstance(st.value, ast.Call)
+                         and ast.unparse(st.value.func) == f"{ast.unparse(lp.target)}.record_interruption"]
+            if len(calls) == 1 and len(top_level) == 1 and top_level[0].value is calls[0]:
                 hits.append(calls[0])
         total = [c for c in ast.walk(node) if isinstance(c, ast.Call) and ast.unparse(c.func).endswith(".record_interruption")]
         good = len(hits) == 1 and len(total) == 1
